@@ -25,4 +25,15 @@ for mp in sorted(glob.glob(os.path.join(V, 'seeded', '*', 'meta.json'))):
     d['checks_output'] = [l for l in r.stdout.splitlines() if l.strip()][-40:]
     json.dump(d, open(mp, 'w'), indent=1)
     print(sid, alarms, flush=True)
+    # a detection recorded when the seed was filed that is gone now is a regression of the rules
+    def _parse(x):
+        import ast
+        try:
+            return ast.literal_eval(x) if isinstance(x, str) and x.startswith('{') else {}
+        except Exception:
+            return {}
+    was, now = _parse(d.get('checks_that_alarm_when_filed')), _parse(alarms)
+    lost = sorted(k for k, v in was.items() if v == 1 and now.get(k) != 1)
+    if lost:
+        print('LOST-DETECTION', sid, 'reported by', lost, 'when filed, not now', flush=True)
 subprocess.run('git checkout -q -- . && git clean -fdq -e target', shell=True, cwd=WT)
